@@ -23,7 +23,7 @@ from checks import c01  # noqa: E402
 PROP = "C02"
 RUN_OPTS = dict(max_paths=2000, budget_s=40.0)
 
-KIND_SETS = [("s", "s", "s"), ("e", "e", "e"), ("s", "w", "s", "s")]
+KIND_SETS = [("s", "s", "s"), ("e", "e", "e"), ("s", "w", "s", "s"), ("W", "W", "W")]
 # term tables over the non-dummy basis sets (index into c01.POOL of the kind)
 TABLES = {
     3: [[(1, 1, 0), (0, 2, 2), (1, 0, 2)], [(1, 0, 0), (0, 1, 0), (0, 0, 1), (2, 2, 2)], [(1, 2, 1), (1, 2, 1), (0, 0, 0)]],
